@@ -72,6 +72,20 @@ def c08_machine(o, nid, nr, T):
         o.violate("C08", "offer-instant", o.nlabel(nid),
                   f"{nid}: items finishing (pull + drawn delay) per instant {dict(sorted(fin.items())[:6])} but downstream was asked at "
                   f"{dict(sorted(got.items())[:6])}; first difference at t={t0}")
+    # (a) once more from the complete history: an item is held from its pull to its push (or to the instant it was dropped)
+    ev = []
+    for l in nr.life:
+        ev.append((l["pull_t"], l["pull_seq"], +1, l["item"]))
+        if l["leave_t"] is not None:
+            ev.append((l["leave_t"], l.get("leave_seq", -1), -1, l["item"]))
+    ev.sort(key=lambda x: (x[0], x[1], x[2]))
+    cur = 0
+    wc = nr.spec.get("wc", 1)
+    for t, sq, d, iid in ev:
+        cur += d
+        if cur > wc:
+            o.violate("C08", "work_capacity", o.nlabel(nid), f"{nid} holds {cur} items at t={t} (pulled and not yet pushed or dropped), work_capacity {wc}")
+            break
     o.probe("c08_machine_checked")
 
 
